@@ -1214,3 +1214,100 @@ func PairFilterExclusions(p *core.Program, r *core.Report, rule string) {
 	r.RuleCounts[rule] = n
 	r.Floor(rule, 1)
 }
+
+// OwnerLabelsAlwaysCompared is C19-labels-always. The check that rejects pods of one owner with different labels accepts
+// a pod without comparing in two cases only: the pod has no owner, or it is the first pod of its owner (the lookup of
+// the owner's representative failed). Every other `return nil` comes after the label comparison ran. Equality of a
+// digest or of the cache-key variant is not a comparison - it has collisions, and where it has them two pods with
+// different labels are accepted as one workload.
+func OwnerLabelsAlwaysCompared(p *core.Program, r *core.Report, rule string) {
+	fd := p.Func(core.PkgEval, "PolicyEngine", "checkConsistentLabelsForPodsOfSameOwner")
+	cmp := p.Func(core.PkgEval, "", "diffBetweenPodsLabels")
+	if fd == nil || cmp == nil {
+		r.Lost(rule, "(*PolicyEngine).checkConsistentLabelsForPodsOfSameOwner / diffBetweenPodsLabels")
+		return
+	}
+	if fd == cmp {
+		r.Add(rule, fd.Key()+": every acceptance follows the comparison of the two label maps", p.Pos(fd.Decl.Pos()), core.Discharged, "the comparison was inlined into the check: judged by C19-labels")
+		r.RuleCounts[rule] = 1
+		return
+	}
+	info := fd.Pkg.TypesInfo
+	// ok-variables of comma-ok map lookups
+	okVars := map[types.Object]bool{}
+	ast.Inspect(fd.Decl.Body, func(nd ast.Node) bool {
+		if as, isAs := nd.(*ast.AssignStmt); isAs && len(as.Lhs) == 2 && len(as.Rhs) == 1 {
+			if _, isIx := ast.Unparen(as.Rhs[0]).(*ast.IndexExpr); isIx {
+				if id, isID := as.Lhs[1].(*ast.Ident); isID {
+					okVars[info.ObjectOf(id)] = true
+				}
+			}
+		}
+		return true
+	})
+	n := 0
+	w := facts.NewWalker(info)
+	w.Transfer = func(st int, nd ast.Node, f facts.Formula) int {
+		if c, ok := nd.(*ast.CallExpr); ok && core.Callee(info, c) == cmp.Obj {
+			return 1
+		}
+		return st
+	}
+	w.OnExit = func(st int, ret *ast.ReturnStmt, f facts.Formula) {
+		if w.FuncLitDepth > 0 || ret == nil || len(ret.Results) != 1 || !core.IsNil(info, ret.Results[0]) {
+			return
+		}
+		n++
+		c := fd.Key() + ": acceptance #" + fmt.Sprint(n) + " follows the comparison of the two label maps, or the pod has no owner / is its owner's first pod"
+		if st == 1 {
+			r.OK(rule, c, p.Pos(ret.Pos()), "after diffBetweenPodsLabels")
+			return
+		}
+		// the reasons for accepting without a comparison, as formulas over the atoms of the path condition; the exit is fine
+		// when its condition entails their disjunction
+		var reasons facts.Formula = facts.False{}
+		why := ""
+		variantUsed, injective := false, false
+		for _, a := range facts.Atoms(f) {
+			sa := facts.StripVersions(a)
+			switch {
+			case strings.HasPrefix(sa, "eq:") && strings.Contains(sa, ".Owner.Name==\"\""):
+				reasons = facts.MkOr(reasons, facts.Atom(a)) // the pod has no owner
+			case strings.HasPrefix(sa, "b:"):
+				for o := range okVars {
+					if v, isVar := o.(*types.Var); isVar && facts.StripVersions("b:"+w.PathOfVar(v)) == sa {
+						reasons = facts.MkOr(reasons, facts.MkNot(facts.Atom(a))) // the first pod of its owner
+					}
+				}
+			case strings.HasPrefix(sa, "eq:") && strings.Count(sa, ".Owner.Variant") == 2:
+				// equality of the label VARIANT of the two pods stands for equality of the label maps exactly when the
+				// variant is an injective encoding of the whole map - the condition C15-d-key decides for the cache key
+				variantUsed = true
+				sub := core.NewReport("C19")
+				CacheKeyShape(p, sub, "variant")
+				for _, o := range sub.Obs {
+					if strings.Contains(o.Construct, "entry-delimited encoding of the whole label map") {
+						injective = o.Status == core.Discharged
+					}
+				}
+				if injective {
+					reasons = facts.MkOr(reasons, facts.Atom(a))
+				}
+			case strings.HasPrefix(sa, "eq:") && !strings.Contains(sa, ".") && !strings.Contains(sa, "\""):
+				// the two pods are one and the same object (pointer equality of two plain variables)
+				reasons = facts.MkOr(reasons, facts.Atom(a))
+			}
+		}
+		if facts.Entails(f, reasons) {
+			why = "no owner, the owner's first pod, the same pod object, or equal variants under an injective variant encoding"
+		} else if variantUsed && !injective {
+			r.Bad(rule, c, p.Pos(ret.Pos()), "a pod is accepted because its label variant equals that of its owner's representative, but the variant is not an injective encoding of the label map (see C15-d-key): label sets that collide are accepted as equal, and pods of one owner with different labels are reported as one workload")
+			return
+		}
+		r.Check(why != "", rule, c, p.Pos(ret.Pos()), why,
+			"a pod is accepted under "+facts.StripVersions(facts.String(f))+" without its labels having been compared with those of its owner's representative: equality of a digest or variant has collisions, and pods of one owner with different labels are then reported as one workload with the labels of whichever pod comes first")
+	}
+	w.WalkBody(fd.Decl.Body, nil)
+	r.RuleCounts[rule] = n
+	r.Floor(rule, 2)
+}
